@@ -44,6 +44,9 @@ type c14Scenario struct {
 	graded576 bool
 	zeroEUR   bool // SPR band zeroes pEUR at 576 (>= 2.0.2)
 	retry576  bool // the snapshot block fails once late (sync-height write) and is retried by the daemon
+	// at the FIRST snapshot block the staking records put pUSD outside the tolerance band (>= 2.0.2: recorded as 0, nothing can be
+	// valued, nobody is paid there) - the snapshot itself is still taken, and the next one pays by min(balance then, balance now)
+	zeroUSD432 bool
 }
 
 func c14Scenarios(era drive.Era, thorough bool) []c14Scenario {
@@ -78,6 +81,9 @@ func c14Scenarios(era drive.Era, thorough bool) []c14Scenario {
 	out = append(out, c14Scenario{name: "tie-above-cap", holders: []c14Holder{{key: 20, xbt: 1000000, move: "none"}, {key: 21, xbt: 1000000, move: "none"}, {key: 22, xbt: 1000000, move: "none"}}, snapRates: R1().With("XBT", 9e7*1e8), graded576: true})
 	if era.V202 == 0 {
 		out = append(out, c14Scenario{name: "asset-zeroed-by-band", holders: append([]c14Holder{{key: 20, usd: 10, eur: 5, move: "none"}}, fixed...), graded576: true, zeroEUR: true})
+		for _, mv := range []string{"none", "late", "sendpart"} {
+			out = append(out, c14Scenario{name: "pusd-unpriced-at-first-snapshot/" + mv, holders: append([]c14Holder{{key: 20, usd: 1000, eur: 5, move: mv}}, fixed...), graded576: true, zeroUSD432: true})
+		}
 	}
 	return out
 }
@@ -158,7 +164,11 @@ func c14One(c *core.Ctx, r *core.Result, era drive.Era, sc c14Scenario, key stri
 	}
 	b.Add(g(drive.BlockSpec{}))
 	b.Add(g(drive.BlockSpec{})) // 431
-	b.Add(g(drive.BlockSpec{})) // 432 snapshot 1
+	s432 := g(drive.BlockSpec{})
+	if sc.zeroUSD432 {
+		s432.SPR = sprSet(era, 432, s432.Rates.With("USD", s432.Rates[kit.AssetIndex("USD")]*10), A[:], KA, 25)
+	}
+	b.Add(s432) // 432 snapshot 1
 	// 433: movements
 	var mv []fake.Entry
 	for _, h := range sc.holders {
@@ -237,6 +247,9 @@ func c14One(c *core.Ctx, r *core.Result, era drive.Era, sc c14Scenario, key stri
 		states[h] = v
 	}
 	s1, s2, post := states[431], states[575], states[576]
+	if sc.zeroUSD432 && s2.Rates[432]["pUSD"] != 0 {
+		panic(fmt.Sprintf("harness: C14 %s: pUSD is recorded as %d at 432, the scenario wants it unpriced", key, s2.Rates[432]["pUSD"]))
+	}
 	// harness self-check: the holders really hold what the scenario says at the first snapshot
 	for _, h := range sc.holders {
 		if h.move == "late" {
